@@ -138,7 +138,7 @@ def tlc_plans(chk, tier, start, dev=(), cfgs=None, faults=None, workers=4, emit=
 
 def _selftest_dev(chk, dev, start):
     r = tlc_plans(chk, "quick", start, dev=(dev,), cfgs="CfgsTiny", workers=1, emit=False, tag="_" + dev)
-    if dev == "WaitHoldsPipes":
+    if dev in ("WaitHoldsPipes", "ExecveRetriesEtxtbsy"):
         # this deviation shows as a deadlock: the caller blocked forever in wait4 inside spawn
         if "Deadlock reached" not in r.out:
             raise core.ToolError("model self-test: deviation %s does not deadlock Spawn.tla:\n%s" % (dev, r.out[-1500:]))
@@ -219,7 +219,7 @@ def model_selftest_jobs(chk, ex):
     futs = {}
     for dev, start in (("ChildReturnsErr", True), ("ExecveNegErrno", True), ("EnvTestInverted", False), ("WaitHoldsPipes", True),
                        ("TryWaitNoCache", True), ("EintrNotRetried", True),
-                       ("EintrReturnsAtOnce", True)):
+                       ("EintrReturnsAtOnce", True), ("ExecveRetriesEtxtbsy", True), ("ChildClosesDupSource", True)):
         futs[dev] = ex.submit(_selftest_dev, chk, dev, start)
     for dev in ("ParentKeepsOutWrite", "ChildKeepsInWrite"):
         futs["flow:" + dev] = ex.submit(_selftest_flow, chk, dev)
@@ -303,10 +303,41 @@ def helper_name(idx, stdin_pipe=False, override=None):
     return name if name.endswith("c") else name + ("r" if stdin_pipe else "")
 
 
+def pos_want(io):
+    """by how much ONE exec'ed program moves the three descriptions the driver started with (inh) and the
+    RawFd sources (raw): the helper reads 3 bytes from a regular-file stdin and writes 2 bytes to a
+    regular-file stdout / stderr; the driver's stdin file is read-only, its stdout / stderr files write-only"""
+    inh = [0, 0, 0]
+    raw = [0, 0, 0]
+    for s, m in enumerate(io):
+        amount = 3 if s == 0 else 2
+        if m == "raw":
+            raw[s] = amount
+            continue
+        j = s if m == "inherit" else (int(m[2]) if m in ("fd0", "fd1", "fd2") else None)
+        if j is None:
+            continue
+        if (s == 0) == (j == 0):          # reading needs the read-only file, writing one of the write-only ones
+            inh[j] += amount
+    return [{"inh": inh[k], "raw": raw[k]} for k in range(3)]
+
+
+def alias_class(io):
+    """Stdio::RawFd(0/1/2) configurations by what makes them special"""
+    std = {"fd0": 0, "fd1": 1, "fd2": 2}
+    if not any(m in std for m in io):
+        return None
+    if any(std.get(io[s]) == s for s in range(3)):
+        return "identity"
+    if any(io[s] in std and std[io[s]] < s and io[std[io[s]]] != "inherit" for s in range(3)):
+        return "source-overwritten"
+    return "plain"
+
+
 def concretise(plan, rundir, variant, idx, helper=None):
     cfg = plan["cfg"]
     start, env_alt = VARIANTS[variant][1], VARIANTS[variant][2]
-    binp = os.path.join(rundir, helper_name(idx, cfg["io"][0] == "pipe", helper) if cfg["prog"] == "ok" else "nobin")
+    binp = os.path.join(rundir, helper_name(idx, cfg["io"][0] == "pipe", helper) if cfg["prog"] in ("ok", "busy") else "nobin")
     wseq = list(cfg.get("wseq", ["wait"]))
     if wseq == ["wait"] and idx % 10 == 2:
         wseq = ["poll"]          # same call sequence for the model (the polls collapse), other API
@@ -326,6 +357,8 @@ def concretise(plan, rundir, variant, idx, helper=None):
         m = io[s]
         if m == "inherit":
             dplan[names[s]] = None if (idx + s) % 2 == 0 else "inherit"   # unset = default = inherit
+        elif m in ("fd0", "fd1", "fd2"):
+            dplan[names[s]] = {"fd": int(m[2])}       # Stdio::RawFd naming one of the caller's own standard descriptors
         elif m == "raw":
             dplan[names[s]] = {"fd": RAWFD[s]}
             dplan["open"].append({"fd": RAWFD[s], "path": os.path.join(rundir, "raw%d" % s), "write": s != 0})
@@ -338,7 +371,11 @@ def concretise(plan, rundir, variant, idx, helper=None):
          "uid": -1 if dplan["uid"] is None else dplan["uid"], "puid": os.getuid(),
          "gid": -1 if dplan["gid"] is None else dplan["gid"], "pgid": os.getgid(),
          "pg": 0 if cfg["pg"] == "own" else -1, "io": io, "pre": list(cfg["pre"]), "feed": dplan["feed"] or "",
-         "flow": [], "mayHang": False}
+         "flow": [], "mayHang": False, "posWant": pos_want(io)}
+    if cfg["prog"] == "busy":
+        # the program file is open for writing (descriptor 43, not close-on-exec, inherited by the forked
+        # child): execve says ETXTBSY without any injection
+        dplan["open"].append({"fd": 43, "path": binp, "write": "append"})
     if plan.get("flow"):
         ops, nbytes, exp, hang = flow_expect(plan["flow"])
         dplan.update({"wait": ops, "payload": nbytes, "feed": None})
@@ -354,6 +391,12 @@ def concretise(plan, rundir, variant, idx, helper=None):
         planned.append({"proc": "C", "step": "chdir", "errno": 2})
     if cfg["prog"] == "missing":
         planned.append({"proc": "C", "step": "execve", "errno": 2})
+    if cfg["prog"] == "busy":
+        planned.append({"proc": "C", "step": "execve", "errno": 26})
+    for k in range(3):
+        if io[k] == "fd%d" % k:
+            # identity (e.g. stdout(RawFd(1))): dup2 is done with dup3, which refuses equal descriptors
+            planned.append({"proc": "C", "step": "dup3", "errno": 22})
     if cfg["uid"] == "other" and cfg["gid"] == "other":
         # as coded setgid follows setuid: the kernel refuses it once the privileges are gone
         planned.append({"proc": "C", "step": "setgid", "errno": 1})
@@ -365,8 +408,9 @@ def concretise(plan, rundir, variant, idx, helper=None):
     c["planned"] = planned
     inj = None
     if f["k"]:
-        inj = "task=%d,nr=%s,k=%d,%s" % (1 if f["p"] == "P" else 2, f["sys"], f["k"],
-                                         ("err=%d" % f["err"]) if f["err"] > 0 else ("ret=%d" % -f["err"]))
+        inj = "task=%d,nr=%s,k=%d,%s%s" % (1 if f["p"] == "P" else 2, f["sys"], f["k"],
+                                           ("err=%d" % f["err"]) if f["err"] > 0 else ("ret=%d" % -f["err"]),
+                                           ",persist" if f.get("persist") else "")
     return dplan, c, inj
 
 
@@ -392,6 +436,8 @@ def execute(job):
     os.chmod(rundir, 0o777)      # the helper may run as another user and must be able to write its dump
     helper = os.path.join(rundir, helper_name(job["idx"], job["plan"]["cfg"]["io"][0] == "pipe", job.get("helper")))
     try:
+        if job["plan"]["cfg"].get("prog") == "busy":
+            raise OSError("a private copy: the file will be held open for writing")
         os.link(os.path.join(job["tools"], "spawn_helper"), helper)
     except OSError:
         shutil.copy(os.path.join(job["tools"], "spawn_helper"), helper)
@@ -414,7 +460,7 @@ def execute(job):
     cmd += ["-s", SCHEDULES[job["idx"] % 3]]
     probe = job["variant"] in ("probe", "noalloc")
     for o in dplan["open"]:
-        cmd += ["-f", "%d:%s:%s" % (o["fd"], "w" if o["write"] else "r", o["path"])]
+        cmd += ["-f", "%d:%s:%s" % (o["fd"], "a" if o["write"] == "append" else ("w" if o["write"] else "r"), o["path"])]
     if probe:
         cmd += ["--", os.path.join(job["bindir"], "spawnp" if job["variant"] == "probe" else "spawnn")] + probe_args(dplan)
     else:
@@ -650,6 +696,8 @@ def assemble(idx, c, tr, info, dump):
             out.append({"ev": "exit", "task": e["task"], "status": e["status"]})
         elif k == "timeout":
             out.append({"ev": "anomaly", "what": "TimedOut"})
+        elif k == "flood":
+            out.append({"ev": "anomaly", "what": "CallFlood"})      # a task repeating a call without end
     out += info["ios"]
     for w in waited:
         out.append({"ev": "waited", "res": w["res"], "status": w["status"]})
@@ -761,6 +809,8 @@ def signature(plan, variant, clause, verdict):
     """identity of a violation: the clause, the steps that failed in that run (side/step), the build"""
     steps = sorted({"%s/%s" % ("caller" if f["proc"] == "P" else "child", f["step"]) for f in verdict.get("failed", [])})
     sig = {"clause": clause, "failed": "+".join(steps) if steps else "none", "start": VARIANTS[variant][1]}
+    if alias_class(plan["cfg"]["io"]):
+        sig["alias"] = alias_class(plan["cfg"]["io"])
     if plan.get("round", 1) == 2:
         sig["respawn"] = plan["cfg"].get("respawn")
     if plan.get("flow"):
@@ -809,7 +859,7 @@ def run(tier):
         plans = [plans[k] for k in sorted(plans)]
         if not plans:
             raise core.ToolError("Spawn_MC generated no plan")
-        if any(p["viol"] for p in plans):
+        if any(set(p["viol"]) - ({"OkMeansConfigured"} if alias_class(p["cfg"]["io"]) == "source-overwritten" else set()) for p in plans):
             raise core.ToolError("model inconsistent: plan with violated clauses although AbsHolds passed")
         round2 = {json.dumps([p["cfg"], p["fault"]], sort_keys=True): p for p in plans if p.get("round", 1) == 2}
         plans = [p for p in plans if p.get("round", 1) == 1]
